@@ -35,6 +35,9 @@ func (sx *server) Run() error {
 		if err != nil {
 			continue
 		}
+		if v4.Protocol != layer.ProtoUDP {
+			continue
+		}
 		udp, err := layer.DecodeUDP(v4.Data)
 		if err != nil {
 			continue
